@@ -111,7 +111,11 @@ def c11_case(ctx: Ctx, case: dict):
                     # both against the reference meaning (so that a common mistake cannot hide)
                     key = nme if fn == "monitor_values" else rm.deriv_of(nme)
                     if sexp.agrees(v1, exact[key], spread[key]) == "bad" and sexp.agrees(v0, exact[key], spread[key]) != "bad":
-                        ctx.violate(f"C11/value-differs/{fn}", f"after save/load {fn}[{nme}] = {v1!r}, before {v0!r}, model text defines {oracle.fmt(exact[key])}",
+                        # a value that is finite before and nan/inf after: an exp that over/underflows harmlessly in the written
+                        # form and as inf/inf in the re-associated form sympy builds on reload (equal over the reals)
+                        nonfinite = np.isfinite(v0) and not np.isfinite(v1)
+                        ctx.violate(f"C11/value-differs/{fn}" + ("/non-finite-after-reload" if nonfinite else ""),
+                                    f"after save/load {fn}[{nme}] = {v1!r}, before {v0!r}, model text defines {oracle.fmt(exact[key])}",
                                     case={**case, "points": [pt]}, saved=saved)
                         return
                 elif np.isfinite(v0) and not np.isclose(v0, v1, rtol=1e-9, atol=1e-12 * (abs(v0) + 1)):
